@@ -64,6 +64,15 @@ def h_chain(ctx, depth, opts):
 def many_dag(ctx, n, fanout, payload_pad=0):
     """n distinct cells (concrete distinct filler; the root and one of its children symbolic); returns (root spec cell, symbolic child)"""
     sym = SC(ORD, ctx.bitstr('x', 19), [])
+    if n > 600:
+        # many cells: a 4-ary heap of n - 2 distinct filler cells below the root (depth about log4 n; the frontier construction
+        # below would grow chains deeper than the 1023 levels a cell may have)
+        N = n - 2
+        nodes = [None] * (N + 1)
+        for i in range(N, 0, -1):
+            kids = [nodes[j] for j in range(4 * i, min(4 * i + 4, N + 1))]
+            nodes[i] = SC(ORD, format(i, '020b'), kids)
+        return warm(SC(ORD, cat_bits(ctx.bitstr('r', 7), '1' * payload_pad), [sym] + [nodes[j] for j in range(1, min(4, N + 1))])), sym
     pending = []
     made = 2                       # root + sym
     while made < n:
